@@ -69,6 +69,7 @@ pub fn generate(rng: &mut Rng, tier: Tier, stats: &mut GenStats) -> Scenario {
             form: g.rng.below(8) as u8,
         });
         maybe_above(&mut g, walkers.last_mut().unwrap(), 8);
+        maybe_empty_base(&mut g, walkers.last_mut().unwrap(), &cwd, 3);
     }
     let schedule = interleaving(g.rng, nw, tree.len());
     Scenario {
